@@ -315,6 +315,30 @@ func Settle() {
 	})
 }
 
+// WaitUntil blocks the running thread until cond() holds (cond is evaluated by
+// the scheduler; it must only read state that changes at visible operations).
+// Harness-side models of blocking devices (pipes) are built from it.
+func WaitUntil(label string, cond func() bool) { point(label, cond) }
+
+// ChooseDeviation is an environment choice among n answers where answer 0 is
+// the default (cost 0) and every other answer costs one deviation.
+func ChooseDeviation(n int, label string) int {
+	if !Active() || n <= 1 {
+		return 0
+	}
+	costs := make([]int, n)
+	for i := 1; i < n; i++ {
+		costs[i] = 1
+	}
+	s.points++
+	k := s.chooser.Choose(&Point{Kind: KValue, N: n, Costs: costs, Label: label})
+	if k < 0 || k >= n {
+		panic(fmt.Sprintf("vsched: chooser returned %d of %d", k, n))
+	}
+	s.logf("T%d env %s = %d", s.cur.id, label, k)
+	return k
+}
+
 // Yield is a visible no-op (a pure scheduling point).
 func Yield() { point("yield", nil) }
 
